@@ -89,6 +89,46 @@ func init() {
 		r1, _ := rebuilt.GetModel()["g"]["g"].CondRM.HasLink("bob", "admin")
 		return !s1 || !b1 || b2 || s2 || !r1, fmt.Sprintf("HasLink(alice,admin) after single add=%v, after batch add=%v; after single removal=%v, after batch removal=%v; HasLink(bob,admin) after auto-build off + BuildRoleLinks=%v", s1, b1, b2, s2, r1)
 	}
+	// D38: Clear() of a conditional role manager (LoadPolicy, ClearPolicy + re-add, BuildRoleLinks) drops the
+	// registered link condition functions: every conditional link becomes unconditional
+	witnesses["D38-reload-drops-link-conditions"] = func() (bool, string) {
+		text := strings.Replace(rbacText, "g = _, _", "g = _, _, (_, _)", 1)
+		a := mem.New()
+		a.Lines = []mem.Line{{"p", []string{"admin", "data1", "read"}}, {"g", []string{"alice", "admin", "off", "x"}}}
+		e, err := casbin.NewEnforcer(mustModel(text), a)
+		if err != nil {
+			return false, err.Error()
+		}
+		cond := func(args ...string) (bool, error) { return len(args) > 0 && args[0] == "on", nil }
+		e.AddNamedLinkConditionFunc("g", "alice", "admin", cond)
+		before, _ := e.Enforce("alice", "data1", "read")
+		_ = e.LoadPolicy()
+		after, _ := e.Enforce("alice", "data1", "read")
+		fresh, _ := casbin.NewEnforcer(mustModel(text), a)
+		fresh.AddNamedLinkConditionFunc("g", "alice", "admin", cond)
+		want, _ := fresh.Enforce("alice", "data1", "read")
+		return after != want, fmt.Sprintf("link alice->admin with a registered condition that fails: Enforce(alice,data1,read) before LoadPolicy=%v, after LoadPolicy=%v, fresh enforcer with the same rules and the same registered function=%v", before, after, want)
+	}
+	// D39: replacing a domain matching function keeps the links copied into concrete domains under the previous one
+	witnesses["D39-domain-matching-func-replaced"] = func() (bool, string) {
+		build := func(fns ...func(string, string) bool) *casbin.Enforcer {
+			m := mustModel(strings.Replace(strings.Replace(strings.Replace(rbacText, "r = sub, obj, act", "r = sub, dom, obj, act", 1), "p = sub, obj, act", "p = sub, dom, obj, act", 1), "g = _, _", "g = _, _, _", 1))
+			m["m"]["m"].Value = "g(r_sub, p_sub, r_dom) && r_dom == p_dom && r_obj == p_obj && r_act == p_act"
+			e, _ := casbin.NewEnforcer(m)
+			e.AddGroupingPolicy("alice", "admin", "tenant*")
+			e.AddGroupingPolicy("bob", "admin", "tenant2")
+			e.AddPolicy("admin", "tenant2", "data2", "read")
+			for _, fn := range fns {
+				e.AddNamedDomainMatchingFunc("g", "fn", fn)
+			}
+			return e
+		}
+		live := build(util.KeyMatch, util.KeyMatch2)
+		fresh := build(util.KeyMatch2)
+		got, _ := live.Enforce("alice", "tenant2", "data2", "read")
+		want, _ := fresh.Enforce("alice", "tenant2", "data2", "read")
+		return got != want, fmt.Sprintf("g alice admin tenant*; g bob admin tenant2; keyMatch registered, then replaced by keyMatch2 (under which tenant* matches nothing): Enforce(alice,tenant2,data2,read) live=%v, fresh enforcer with keyMatch2 only=%v", got, want)
+	}
 	// D20: the filtered file adapter splits lines at raw commas and skips rules shorter than the filter
 	witnesses["D20-filter-quoted-fields"] = func() (bool, string) {
 		dir, _ := os.MkdirTemp("", "d20")
